@@ -148,6 +148,14 @@ func (root *Root) resolve(
 		// value, not something to hand back to the caller as is.
 		return nil, nil
 	}
+	if _, ok := obj.(*Subscription); depth <= 0 && !ok {
+		// Too deep. The object is not a value of the type of the field (it
+		// has not been coerced or had any selections applied) so it is not
+		// handed back as is, the request is cut here with an error. (A
+		// subscription is, that is how a subscribe request gets hold of
+		// what its fields resolved to.)
+		return nil, []error{resWarn(field.line, field.col, "maximum resolve depth of %d reached", MaxResolveDepth)}
+	}
 	if depth <= 0 || IsNil(obj) {
 		// If not intended then generate an error later when trying to
 		// generate output.
